@@ -26,7 +26,7 @@ def render_expr(e, dm):
         return "(%s %s %s)" % (render_expr(e[1], dm), k, render_expr(e[2], dm))
     if k == 'in':
         if dm == 'promela':
-            return "_x.states[%s]" % e[1] if False else "In(%s)" % e[1]
+            return "_x.states['%s']" % e[1]
         return "In('%s')" % e[1]
     if k in ('<', '<=', '==', '!=', '>', '>='):
         op = k
@@ -376,6 +376,12 @@ class Chart:
                 w('%s  <onexit vid="%s.ex%d">' % (ind, s.id, bi))
                 render_execs(b, ind + '    ')
                 w('%s  </onexit>' % ind)
+            for iid, child in getattr(s, 'invokes', []):
+                w('%s  <invoke type="http://www.w3.org/TR/scxml/" id="%s" vid="%s.inv.%s">' % (ind, iid, s.id, iid))
+                w('%s    <content>' % ind)
+                w(child.to_xml(dm))
+                w('%s    </content>' % ind)
+                w('%s  </invoke>' % ind)
             # document order of children and transitions: transitions first, then children in given order
             for t in s.transitions:
                 render_trans(t, ind + '  ')
